@@ -1754,7 +1754,7 @@ impl AsLogicalPlan for LogicalPlanNode {
                         protobuf::LimitNode {
                             input: Some(Box::new(input)),
                             skip: skip as i64,
-                            fetch: fetch.unwrap_or(i64::MAX as usize) as i64,
+                            fetch: fetch.map(|f| f as i64).unwrap_or(-1),
                         },
                     ))),
                 })
